@@ -636,30 +636,44 @@ fn scan_value(src: &str, i: usize, rx: u32) -> Option<usize> {
             }
         }
     }
-    // defect model, on bytes as the scanner under test works (a multi-byte character counts as several bytes): the
-    // first byte, the byte after a hyphen and the last byte are not validated
+    // defect model, as the scanner under test works: `next()` reads one *character* (UTF-8 decoded, a stray
+    // continuation byte reads as U+FFFD), `advance()` skips one *byte*. The first byte of the value and the byte
+    // after a hyphen are skipped unvalidated, the last character before `]` is never validated.
     let b = src.as_bytes();
+    let dec = |k: usize| -> Option<(char, usize)> {
+        let c = *b.get(k)?;
+        if c < 0x80 {
+            Some((c as char, k + 1))
+        } else if src.is_char_boundary(k) {
+            src[k..].chars().next().map(|ch| (ch, k + ch.len_utf8()))
+        } else {
+            Some(('\u{fffd}', k + 1))
+        }
+    };
     if i >= b.len() {
         return None;
     }
     let mut k = i + 1;
     loop {
-        let ch = *b.get(k)?;
-        if b.get(k + 1) == Some(&b']') {
-            return Some(k + 1);
+        let (ch, nx) = dec(k)?;
+        let following = dec(nx);
+        if following.map(|x| x.0) == Some(']') {
+            return Some(nx);
         }
-        if ch == b'-' {
-            b.get(k + 1)?;
-            if !b.get(k + 2).is_some_and(|c| c.is_ascii_alphanumeric()) {
+        if ch == '-' {
+            // `peek()` looks at the character *after* the one that follows the hyphen; that one must be a value
+            // character, the one in between is skipped (one byte) unvalidated
+            let (_, after_x) = following?;
+            if !dec(after_x).is_some_and(|y| y.0.is_ascii_alphanumeric()) {
                 return None;
             }
-            k += 2;
+            k = nx + 1;
             continue;
         }
         if !ch.is_ascii_alphanumeric() {
             return None;
         }
-        k += 1;
+        k = nx;
     }
 }
 
